@@ -71,7 +71,7 @@ def _restart(ctx, fs, pool, op, k):
     return {o}
 
 
-def _faulty_save(ctx, fs, pool, o, op, name, fault):
+def _faulty_save(ctx, fs, pool, o, op, name, fault, prefix="c09"):
     """Fault configurations: the failed save must raise (not be swallowed), leave the in-memory object and its model equal,
     and a clean retry must then succeed.  Reloading a torn/lost file: no verdict."""
     from .. import replcheck
@@ -105,7 +105,7 @@ def _faulty_save(ctx, fs, pool, o, op, name, fault):
         fired_before = fs.stats.get("enospc_fired", 0) + fs.stats.get("eio_fired", 0)
         raised = None
         try:
-            restart.save_lmpdat(ctx, fs, r, "path" if op.get("via") == "path" else "file", style, name, "c09", fault=fault)
+            restart.save_lmpdat(ctx, fs, r, "path" if op.get("via") == "path" else "file", style, name, prefix, fault=fault)
         except OSError as e:
             raised = e
         except Violation:
@@ -126,7 +126,7 @@ def _faulty_save(ctx, fs, pool, o, op, name, fault):
     if replcheck.snapshot(r) != before:
         raise Violation("c09:save-modified-object", "a (failed) save changed the in-memory object", site="save_lmpdat")
     # clean retry
-    re, rem = restart.restart_lmpdat(ctx, fs, r, m, name + "_retry", style=style, via_save="path", via_load="path", prefix="c09")
+    re, rem = restart.restart_lmpdat(ctx, fs, r, m, name + "_retry", style=style, via_save="path", via_load="path", prefix=prefix)
     ctx.count("clean_retries")
     return set()
 
